@@ -23,8 +23,10 @@ import (
 	"testing"
 	"time"
 
+	ssi "github.com/nuts-foundation/go-did"
 	"github.com/nuts-foundation/go-did/vc"
 	"github.com/nuts-foundation/nuts-node/http/client"
+	"github.com/nuts-foundation/nuts-node/storage"
 	"github.com/nuts-foundation/nuts-node/vcr"
 	"verif/lib/ev"
 	"verif/lib/iamflow"
@@ -842,6 +844,22 @@ func TestCheck(t *testing.T) {
 	}
 	ok, msg, _ = verify(n, "vc", vcLDP, "")
 	grid("revocation/other-credential-unaffected", true, ok, msg, nil)
+	// "not revoked" must keep meaning the same after the node re-issues its status lists: make the stored lists look close to expiry
+	// (virtual time), have them served (which re-signs them) and verify again
+	if eng := node.Engine[storage.Engine](n); eng != nil {
+		if res := eng.GetSQLDatabase().Exec("UPDATE status_list_credential SET expires = ?", time.Now().Add(30*time.Minute).Unix()); res.Error != nil {
+			r.Fatalf("ageing status lists: %v", res.Error)
+		}
+		for _, c := range []json.RawMessage{vcStatus, vcJWTExp} {
+			if u := statusListURL(c); u != "" {
+				_, _ = node.Do("GET", u, nil, nil)
+			}
+		}
+		for name, c := range map[string]json.RawMessage{"ldp": vcStatus, "jwt": vcJWTExp} {
+			ok, msg, _ := verify(n, "vc", c, "")
+			grid("revocation/revoked-"+name+"-after-list-reissue", false, ok, msg, nil)
+		}
+	}
 
 	// issuer deactivation
 	d, err := n.CreateSubject("soon-deactivated")
@@ -866,6 +884,27 @@ func TestCheck(t *testing.T) {
 	grid("deactivation/after-ldp", false, ok, msg, nil)
 	ok, msg, _ = verify(n, "vc", dj, "")
 	grid("deactivation/after-jwt", false, ok, msg, nil)
+
+	// withdrawn trust survives a restart of the node (same data directory)
+	if err := vcrEngine.Untrust(ssi.MustParseURI("NutsOrganizationCredential"), ssi.MustParseURI(issuer.DID)); err != nil {
+		r.Fatalf("untrust: %v", err)
+	}
+	ok, msg = trustVerify(vcLDP)
+	grid("trust/untrusted-again-before-restart", false, ok, msg, nil)
+	dataDir, pubAddr, inAddr := n.DataDir, strings.TrimPrefix(n.Public, "http://"), strings.TrimPrefix(n.Internal, "http://")
+	n.Stop()
+	n = node.Start(t, node.Options{DIDMethods: []string{"web"}, DataDir: dataDir, Env: map[string]string{
+		"NUTS_URL": w.Proxy.URL, "NUTS_HTTP_PUBLIC_ADDRESS": pubAddr, "NUTS_HTTP_INTERNAL_ADDRESS": inAddr, "NUTS_AUTH_AUTHORIZATIONENDPOINT_ENABLED": "true"}})
+	w.N = n
+	vcrEngine = node.Engine[vcr.VCR](n)
+	ok, msg = trustVerify(vcLDP)
+	grid("trust/untrusted-after-restart", false, ok, msg, nil)
+	ok, msg, _ = verify(n, "vc", vcLDP, "")
+	grid("trust/after-restart-trust-not-required", true, ok, msg, nil)
+	for name, c := range map[string]json.RawMessage{"ldp": vcStatus, "jwt": vcJWTExp} {
+		ok, msg, _ := verify(n, "vc", c, "")
+		grid("revocation/revoked-"+name+"-after-restart", false, ok, msg, nil)
+	}
 
 	r.Extra("artefacts", len(arts))
 	r.Extra("distinct_operators_by_format", r.DistinctN("operators"))
@@ -913,6 +952,25 @@ func (h *didHost) identity(did, docURL string) *iamflow.Holder {
 	h.docs[docURL] = b
 	h.mu.Unlock()
 	return id
+}
+
+// statusListURL extracts credentialStatus.statusListCredential of a credential (JSON-LD object or JWT string).
+func statusListURL(c json.RawMessage) string {
+	str := string(c)
+	var tok string
+	if json.Unmarshal(c, &tok) == nil {
+		parts := strings.Split(tok, ".")
+		if len(parts) == 3 {
+			b, _ := base64.RawURLEncoding.DecodeString(parts[1])
+			str = string(b)
+		}
+	}
+	i := strings.Index(str, `"statusListCredential":"`)
+	if i < 0 {
+		return ""
+	}
+	rest := str[i+len(`"statusListCredential":"`):]
+	return rest[:strings.IndexByte(rest, '"')]
 }
 
 func mkVPNoFail(n *node.Node, signer string, creds []json.RawMessage) json.RawMessage {
